@@ -40,6 +40,34 @@ func getFirstBlockToMigrate(
 	return minBlock, true, nil
 }
 
+// firstTailBlockWithoutCombinedRecord returns the first block of the run of stored blocks at the
+// end of the chain that have no combined record yet, or chainHeight+1 if the head has one.
+func firstTailBlockWithoutCombinedRecord(
+	database db.KeyValueReader,
+	chainHeight uint64,
+) (uint64, error) {
+	next := chainHeight + 1
+	for next > 0 {
+		has, err := core.BlockTransactionsBucket.Has(database, next-1)
+		if err != nil {
+			return 0, err
+		}
+		if has {
+			break
+		}
+		// Stop at blocks that are not stored (e.g. pruned): there is nothing to migrate there.
+		hasHeader, err := core.BlockHeadersByNumberBucket.Has(database, next-1)
+		if err != nil {
+			return 0, err
+		}
+		if !hasHeader {
+			break
+		}
+		next--
+	}
+	return next, nil
+}
+
 func getFirstBlockInBucket[A any](items iter.Seq2[prefix.Entry[A], error]) (uint64, bool, error) {
 	next, stop := iter.Pull2(items)
 	defer stop()
